@@ -106,7 +106,13 @@ pub fn lit_of(k: u8) -> &'static str { match k { 0 => "", 1 => "x y", 2 => "\\u{
 """
 
 
-def transparent_program(pname, tier):
+def transparent_program(pname, tier, combined=False):
+    """combined: the transparent variants also carry to_string / serialize (transparent still decides what is printed)."""
+    SRC = TRANSPARENT_SRC
+    if combined:
+        SRC = SRC.replace("    #[strum(transparent)]\n    In(Inner),", '    #[strum(transparent, to_string = "unit")]\n    In(Inner),')
+        SRC = SRC.replace("    #[strum(transparent)]\n    St {", '    #[strum(serialize = "st", serialize = "longer-st")]\n    #[strum(transparent)]\n    St {')
+        assert SRC != TRANSPARENT_SRC
     hs = []
     fns = ["<Tr as Display>::fmt", "<Tr as AsRef<str>>::as_ref", "<&'static str as From<&Tr>>::from", "<&'static str as From<Tr>>::from",
            "<Inner as Display>::fmt"]
@@ -160,8 +166,8 @@ def transparent_program(pname, tier):
                               desc="transparent %s variant, inner value #%d: Display with \"%s\" equals the inner value's, every width <= 6" % (
                                   "tuple(derived enum)" if sel else "named(&'static str)", k, fs),
                               bound={"inner": k, "width": "0..6", "spec": fs}, min_covers=1, functions=fns))
-    return Program(name=pname, enum_src=TRANSPARENT_SRC, harnesses=hs, summary=TRANSPARENT_SRC, role="pivot",
-                   note="transparent variants in tuple and single-named-field form")
+    return Program(name=pname, enum_src=SRC, harnesses=hs, summary=SRC, role="pivot",
+                   note="transparent variants in tuple and single-named-field form" + (" that also carry to_string / serialize" if combined else ""))
 
 
 def build(tier, seed):
@@ -173,7 +179,8 @@ def build(tier, seed):
                  note="default variant, single named field, Box<str>"),
         EnumSpec("DefPre", [U("Red", to_string="RedRed"), U("Other", fields=[Field("String")], default=True)], derives=d, prefix="colour/",
                  note="enum-level prefix next to a default variant: the captured value is printed verbatim, without the prefix"),
-        EnumSpec("DefSer", [U("Gz", serialize=["gz", "gzip"], aci=True), U("Other", fields=[Field("String")], default=True, serialize=["other"]), U("Zs")], derives=d,
+        EnumSpec("DefSer", [U("Gz", serialize=["gz", "gzip"], aci=True), U("Other", fields=[Field("String")], default=True, serialize=["other"]), U("Zs"),
+                           U("Idx", serialize=["a[0]"], aci=True), U("Dash", serialize=["b-_1"], aci=True)], derives=d,
                  note="default variant that also carries `serialize` (no to_string): Display must still print the captured value"),
     ]
     programs = []
@@ -186,6 +193,7 @@ def build(tier, seed):
     programs.append(default_program(S[2], "p003", tier, 5 if tier == "quick" else 6, True))
     programs.append(default_program(S[3], "p004", tier, 5 if tier == "quick" else 6, True))
     programs.append(transparent_program("p002", tier))
+    programs.append(transparent_program("p005", tier, combined=True))
     return {
         "programs": programs,
         "harness_timeout": 600 if tier == "quick" else 3000,
